@@ -1,11 +1,15 @@
 package main
 
 import (
+	"bytes"
 	"context"
 	"fmt"
+	"io"
 	"net/http"
 	"net/http/httptest"
 	"net/url"
+	"regexp"
+	"strconv"
 	"strings"
 	"sync/atomic"
 	"time"
@@ -166,6 +170,19 @@ func (env *stackEnv) build(s string) (ociregistry.Interface, string, error) {
 				so.OmitLinkHeaderFromResponses = true
 			case o == "nosingle":
 				so.DisableSinglePostUpload = true
+			case o == "redir":
+				// blobs are served from another location: the server answers GETs of blobs with a redirect
+				// to a content-addressed side server (LocationsForDescriptor)
+				cdn := httptest.NewServer(http.HandlerFunc(func(w http.ResponseWriter, req *http.Request) {
+					env.serveByDigest(w, req)
+				}))
+				env.closers = append(env.closers, cdn.Close)
+				so.LocationsForDescriptor = func(isManifest bool, desc ociregistry.Descriptor) ([]string, error) {
+					if isManifest {
+						return nil, nil
+					}
+					return []string{cdn.URL + "/" + string(desc.Digest)}, nil
+				}
 			case strings.HasPrefix(o, "max"):
 				fmt.Sscanf(o[3:], "%d", &so.MaxListPageSize)
 			case strings.HasPrefix(o, "page"):
@@ -226,4 +243,55 @@ func (env *stackEnv) build(s string) (ociregistry.Interface, string, error) {
 		return ociunify.New(args[0], args[1], &ociunify.Options{ReadPolicy: pol}), rest, nil
 	}
 	return nil, "", fmt.Errorf("unknown stack element %q", name)
+}
+
+var cdnRange = regexp.MustCompile(`^bytes=([0-9]+)-([0-9]*)$`)
+
+// serveByDigest serves the blob with the digest named by the URL path from whichever
+// repository of the in-memory registries underneath holds it (a content-addressed store).
+func (env *stackEnv) serveByDigest(w http.ResponseWriter, req *http.Request) {
+	dig := ociregistry.Digest(strings.TrimPrefix(req.URL.Path, "/"))
+	ctx := req.Context()
+	for _, m := range env.mems {
+		repos, _ := ociregistry.All(m.Repositories(ctx, ""))
+		for _, r := range repos {
+			rd, err := m.GetBlob(ctx, r, dig)
+			if err != nil {
+				continue
+			}
+			data, _ := io.ReadAll(rd)
+			rd.Close()
+			w.Header().Set("Docker-Content-Digest", string(dig))
+			w.Header().Set("Content-Type", rd.Descriptor().MediaType)
+			// Range handling as strict as the registry's own: one "bytes=N-" or "bytes=N-M" (M >= N) range;
+			// a range starting exactly at the end is the empty slice; anything else malformed is refused.
+			if rng := req.Header.Get("Range"); rng != "" {
+				m := cdnRange.FindStringSubmatch(rng)
+				if m == nil {
+					http.Error(w, "invalid range", http.StatusRequestedRangeNotSatisfiable)
+					return
+				}
+				start, _ := strconv.Atoi(m[1])
+				if m[2] != "" {
+					if end, _ := strconv.Atoi(m[2]); end < start {
+						http.Error(w, "invalid range", http.StatusRequestedRangeNotSatisfiable)
+						return
+					}
+				}
+				if start > len(data) {
+					http.Error(w, "range starts after end", http.StatusRequestedRangeNotSatisfiable)
+					return
+				}
+				if start == len(data) {
+					w.Header().Set("Content-Range", fmt.Sprintf("bytes %d-%d/%d", start, start-1, len(data)))
+					w.Header().Set("Content-Length", "0")
+					w.WriteHeader(http.StatusPartialContent)
+					return
+				}
+			}
+			http.ServeContent(w, req, "", time.Time{}, bytes.NewReader(data))
+			return
+		}
+	}
+	http.Error(w, "no such blob", http.StatusNotFound)
 }
